@@ -2,7 +2,7 @@
    Only statements here; every proof is `exact <lemma from Proofs/SilencerProofs.v>` (plus trivial glue).
 
    Model: Model/Silence.v (store: st / mi / vi / version exactly as the code keeps them, with the repaired Merge of
-   /repo ca83c00) + Model/Silencer.v (per-alert cache, Mutes, MuteStage, API status).
+   /repo 5c143bd) + Model/Silencer.v (per-alert cache, Mutes, MuteStage, API status).
    Spec : brute x S ls now  = some stored silence is active at now (start <= now <= end, getState) and its matcher
           sets match ls;  brute_ids = the ids of those silences.  (Direct evaluation of Silences.st.)
 
@@ -119,7 +119,7 @@ Theorem c02_late_cache_write_partial x msf c t1 S1 C1 ls C1' r t2 S2 C2 :
   CInv x msf t2 (S2, cache_set C2 ls (C1' ls)).
 Proof. exact (late_cache_write x msf c t1 S1 C1 ls C1' r t2 S2 C2). Qed.
 
-(* ---------- the repaired defect (DESIGN F1, /repo ca83c00), kept as a checked witness ---------- *)
+(* ---------- the repaired defect (DESIGN F1, /repo 5c143bd), kept as a checked witness ---------- *)
 
 Definition ex_x : ext := mkExt (fun _ _ => false) (fun _ => true) (fun _ => false) (fun _ => true) (fun _ => true).
 Definition ex_c : cfg := mkCfg 3600 0 0.
